@@ -137,3 +137,97 @@ func init() {
 		return out
 	})
 }
+
+// strings.Repeat(s, count) with a symbolic count (the interpreted body trips
+// an engine limitation in strings.Builder.grow): same contract as the library.
+func init() {
+	reg("strings.Repeat", func(fr *frame, fn *ssa.Function, args []Val) Val {
+		negative := func() {
+			in.path.faults = append(in.path.faults, faultRec{kind: "native-panic", site: "strings.Repeat", msg: "strings: negative Repeat count"})
+			panic(targetPanic{Iface{t: types.Typ[types.String], v: "strings: negative Repeat count"}})
+		}
+		var elems []Val
+		switch x := args[0].(type) {
+		case string:
+			elems = strBytes(x)
+		case SymStr:
+			elems = x.b
+		default:
+			unsupported("strings.Repeat: string argument")
+		}
+		var n int64
+		switch c := args[1].(type) {
+		case int64:
+			if c < 0 {
+				negative()
+			}
+			n = c
+		case *Term:
+			t := toBV(c, 64)
+			if in.ex.branch(in.path, mkCmp(OSlt, t, mkBV(0, 64))) {
+				negative()
+			}
+			if len(elems) == 0 {
+				return ""
+			}
+			if in.ex.branch(in.path, mkCmp(OSlt, mkBV(uint64(1)<<31, 64), t)) {
+				in.path.faults = append(in.path.faults, faultRec{kind: "hugealloc", site: "strings.Repeat", msg: "allocation size can exceed 2^31 elements"})
+				panic(pathEnd{"hugealloc", "strings.Repeat"})
+			}
+			if in.ex.branch(in.path, mkCmp(OSlt, mkBV(64, 64), t)) {
+				panic(pathEnd{"bound", "symbolic allocation size above the engine bound of 64"})
+			}
+			n = concretize(t, 64, 0, 64)
+		default:
+			unsupported("strings.Repeat: count")
+		}
+		if n*int64(len(elems)) > 1<<26 {
+			in.path.faults = append(in.path.faults, faultRec{kind: "hugealloc", site: "strings.Repeat", msg: "large allocation"})
+			panic(pathEnd{"hugealloc", "strings.Repeat"})
+		}
+		if cs, ok := args[0].(string); ok {
+			return strings.Repeat(cs, int(n))
+		}
+		out := make([]Val, 0, int(n)*len(elems))
+		for i := int64(0); i < n; i++ {
+			out = append(out, elems...)
+		}
+		return SymStr{b: out}
+	})
+}
+
+// c09ConcreteStr turns a string with symbolic bytes into a concrete one by
+// forking over the feasible values of each symbolic byte (the caller's path
+// condition — here: the reader's float regular expressions — keeps the number
+// of alternatives small).
+func c09ConcreteStr(v Val) Val {
+	x, ok := v.(SymStr)
+	if !ok {
+		return v
+	}
+	b := make([]byte, len(x.b))
+	for i, e := range x.b {
+		b[i] = byte(concretize(e, 8, 0, 255))
+	}
+	return string(b)
+}
+
+// Float parsing of a token with symbolic bytes (floats are concrete in the
+// engine): concretise the token, then run the ordinary code.
+func init() {
+	reg("strconv.ParseFloat", func(fr *frame, fn *ssa.Function, args []Val) Val {
+		const name = "strconv.ParseFloat"
+		f := intrinsics[name]
+		delete(intrinsics, name)
+		defer func() { intrinsics[name] = f }()
+		return callSSA(fr, token.NoPos, fn, []Val{c09ConcreteStr(args[0]), args[1]}, nil)
+	})
+	reg("math/big.ParseFloat", func(fr *frame, fn *ssa.Function, args []Val) Val {
+		nf, ok := nativeFuncs["math/big.ParseFloat"]
+		if !ok {
+			unsupported("math/big.ParseFloat is not in the native registry")
+		}
+		a := append([]Val{c09ConcreteStr(args[0])}, args[1:]...)
+		return callNative(fr, "math/big.ParseFloat", nf, a, fn.Signature)
+	})
+}
